@@ -78,6 +78,7 @@ type Ctx struct {
 	inputMode bool
 	synthFns  map[string]*ssa.Function
 	axioms   []*Term
+	Reindex  bool // quantified array indices are rewritten to absolute positions (contract files marked `logical`)
 
 	Bool, Int, Ref, Iface, Str, Slice, Unit, MapH, Float *Sort
 	True, False                                             *Term
@@ -165,6 +166,20 @@ func (c *Ctx) mk(t *Term) *Term {
 	}
 	c.terms[k] = t
 	return t
+}
+
+// AddAxiom records a closed formula asserted in every query of this context
+// (type invariants of values read from memory).
+func (c *Ctx) AddAxiom(t *Term) {
+	if t.IsTrue() || t.hasBound {
+		return
+	}
+	for _, a := range c.axioms {
+		if a == t {
+			return
+		}
+	}
+	c.axioms = append(c.axioms, t)
 }
 
 func (c *Ctx) declare(name string, params []*Sort, res *Sort) {
@@ -403,6 +418,26 @@ func (c *Ctx) Eq(a, b *Term) *Term {
 	if a.Op == "box" && b.Op == "const" && b.Name == "zero_Iface" || b.Op == "box" && a.Op == "const" && a.Name == "zero_Iface" {
 		return c.False
 	}
+	if a.Sort == c.Iface {
+		// comparisons against nil / a boxed value distribute over reads of small literal arrays and conditionals,
+		// where the constructor rules above decide them
+		isKey := func(t *Term) bool { return t.Op == "box" || t.Op == "const" && t.Name == "zero_Iface" }
+		for k := 0; k < 2; k++ {
+			x, y := a, b
+			if k == 1 {
+				x, y = b, a
+			}
+			if !isKey(y) {
+				continue
+			}
+			if e := c.expandSelect(x); e != x {
+				x = e
+			}
+			if x.Op == "ite" {
+				return c.Ite(x.Args[0], c.Eq(x.Args[1], y), c.Eq(x.Args[2], y))
+			}
+		}
+	}
 	if a.Op == "ctor" && b.Op == "ctor" && a.Name == b.Name {
 		cs := make([]*Term, len(a.Args))
 		for i := range a.Args {
@@ -516,6 +551,33 @@ func (c *Ctx) Select(arr, idx *Term) *Term {
 		return c.Ite(arr.Args[0], c.Select(arr.Args[1], idx), c.Select(arr.Args[2], idx))
 	}
 	return c.mk(&Term{Op: "select", Args: []*Term{arr, idx}, Sort: arr.Sort.Elem})
+}
+
+// expandSelect rewrites a read at a symbolic index of an array built by at most
+// eight stores over a constant array into the equivalent if-then-else chain, so
+// that the dynamic type of the element read is known on each branch.
+func (c *Ctx) expandSelect(t *Term) *Term {
+	if t.Op != "select" {
+		return t
+	}
+	arr, idx := t.Args[0], t.Args[1]
+	n := 0
+	a := arr
+	for a.Op == "store" {
+		a = a.Args[0]
+		n++
+	}
+	if n == 0 || n > 8 || a.Op != "constarr" {
+		return t
+	}
+	var build func(a *Term) *Term
+	build = func(a *Term) *Term {
+		if a.Op == "constarr" {
+			return a.Args[0]
+		}
+		return c.Ite(c.Eq(a.Args[1], idx), a.Args[2], build(a.Args[0]))
+	}
+	return build(arr)
 }
 
 func (c *Ctx) Store(arr, idx, v *Term) *Term {
@@ -702,7 +764,96 @@ func (c *Ctx) Forall(vars []*Term, body *Term) *Term {
 	if len(vars) == 0 {
 		return body
 	}
+	vars, body = c.reindex(vars, body)
 	return c.mk(&Term{Op: "forall", Bound: vars, Args: []*Term{body}, Sort: c.Bool})
+}
+
+// reindex: a bound integer i that indexes arrays as select(A, base+i) is replaced
+// by the absolute index x = base+i (i becomes x-base elsewhere), so that the
+// array read select(A, x) is a usable instantiation pattern for the solver.
+// Pure change of variables: the quantified formula is equivalent.
+func (c *Ctx) reindex(vars []*Term, body *Term) ([]*Term, *Term) {
+	if !c.Reindex {
+		return vars, body
+	}
+	isVar := map[*Term]bool{}
+	for _, v := range vars {
+		isVar[v] = true
+	}
+	var mentions func(t *Term) bool
+	memoM := map[*Term]bool{}
+	mentions = func(t *Term) bool {
+		if !t.hasBound {
+			return false
+		}
+		if r, ok := memoM[t]; ok {
+			return r
+		}
+		r := isVar[t]
+		for _, a := range t.Args {
+			if r {
+				break
+			}
+			r = mentions(a)
+		}
+		if !r && (t.Op == "forall" || t.Op == "exists") {
+			r = false
+		}
+		memoM[t] = r
+		return r
+	}
+	out := append([]*Term(nil), vars...)
+	for vi, v := range vars {
+		if v.Sort.Kind != KInt {
+			continue
+		}
+		count := map[*Term]int{}
+		direct := 0
+		seen := map[*Term]bool{}
+		var walk func(t *Term)
+		walk = func(t *Term) {
+			if seen[t] || !t.hasBound {
+				return
+			}
+			seen[t] = true
+			if t.Op == "select" {
+				idx := t.Args[1]
+				if idx == v {
+					direct++
+				} else if idx.Op == "+" && len(idx.Args) == 2 {
+					if idx.Args[0] == v && !mentions(idx.Args[1]) {
+						count[idx.Args[1]]++
+					} else if idx.Args[1] == v && !mentions(idx.Args[0]) {
+						count[idx.Args[0]]++
+					}
+				}
+			}
+			for _, a := range t.Args {
+				walk(a)
+			}
+		}
+		walk(body)
+		var best *Term
+		for a, n := range count {
+			if best == nil || n > count[best] || n == count[best] && a.id < best.id {
+				best = a
+			}
+		}
+		if best == nil || count[best] <= direct {
+			continue
+		}
+		x := c.BoundVar("ix", c.Int)
+		m := map[*Term]*Term{
+			c.Arith("+", best, v): x,
+			c.Arith("+", v, best): x,
+			v:                     c.Arith("-", x, best),
+		}
+		body = c.Subst(body, m)
+		out[vi] = x
+		isVar[x] = true
+		memoM = map[*Term]bool{}
+	}
+	return out, body
 }
 
 func (c *Ctx) Exists(vars []*Term, body *Term) *Term {
@@ -712,6 +863,7 @@ func (c *Ctx) Exists(vars []*Term, body *Term) *Term {
 	if len(vars) == 0 {
 		return body
 	}
+	vars, body = c.reindex(vars, body)
 	return c.mk(&Term{Op: "exists", Bound: vars, Args: []*Term{body}, Sort: c.Bool})
 }
 
